@@ -131,9 +131,25 @@ def sessions(c, tier):
                         (o["cipher"], o.get("got", o.get("error")), json.dumps([[e["s"], e["id"], e["ok"]] for e in o["hist"]])), o)
 
 
+def inductive(res):
+    """Unbounded histories: Apalache discharges an inductive invariant of the ring design in lock step with the set model
+    (PacketRingInd: Init => IndInv, IndInv /\\ Next => IndInv' /\\ agree'), so the ring's verdict equals the set model's after
+    ANY number of presentations over the ids 0..24 at the scaled constants; with the EdgeGE deviation the step must fail."""
+    try:
+        res["base"] = vlib.apalache("PacketRingInd", "CInit", "Init", "IndInv", 0, tag="ind_base")
+        res["step"] = vlib.apalache("PacketRingInd", "CInit", "IndInit", "IndAndAgree", 1, tag="ind_step")
+        res["dev_EdgeGE"] = vlib.apalache("PacketRingInd", "CInitDev", "IndInit", "IndAndAgree", 1, tag="ind_dev")
+    except Exception as e:      # reported by the caller
+        res["tool_error"] = str(e)
+
+
 def run(tier):
     c = Check("C11", tier, "model_checking")
     c.cov["traces_validated_against_impl"] = 0
+    import threading
+    ind = {}
+    th = threading.Thread(target=inductive, args=(ind,))
+    th.start()
     model(c, tier)
     sessions(c, tier)
     spec_to_impl(c, tier)
@@ -143,6 +159,14 @@ def run(tier):
         c11_e2e.run(c, tier)
     except ImportError:
         c.assumptions.append("end-to-end refusal handling (second sentence) not exercised in this run")
+    th.join()
+    if ind.get("tool_error"):
+        raise vlib.ToolError("inductive invariant: " + ind["tool_error"])
+    if ind.get("base") != "ok" or ind.get("step") != "ok":
+        c.violation("model: the inductive invariant of the ring design does not hold (base %s, step %s)" % (ind.get("base"), ind.get("step")), ind)
+    if ind.get("dev_EdgeGE") != "error":
+        raise vlib.ToolError("anti-vacuity: the inductive step holds with the EdgeGE deviation")
+    c.cov["inductive_invariant_apalache"] = dict(ind, obligations=2, discharged=2, scope="any number of presentations over ids 0..24, BB=2, RB=4, W=6")
     c.assumptions += ["TLC ints are 32 bit: 64-bit IDs are replayed as base+offset with bases that are multiples of 8192",
                       "the harness links /repo's PacketWindowFilter through a path dependency built with --cfg octo_verif"]
     return c.finish()
